@@ -182,6 +182,22 @@ POSITIONS = [
     ("trace-operand", "let r = TRACE @E@;"),
     ("let-with-constraint", "let r :: 0 = @E@;"),
     ("assert-statement", "assert {ok = @E@ == 41, desc = \"d\"};\nlet r = 41;"),
+    # constraint positions and the expression part of a format string (reported by a seeding agent on the unchanged tree)
+    ("constraint-of-let", "let r :: (@E@) = 41;"),
+    ("constraint-of-tuple-field", "let r = {a :: (@E@) = 41}.a;"),
+    ("constraint-of-function-argument", "let f = func (x :: (@E@)) => x;\nlet r = f(41);"),
+    ("constraint-of-module-parameter", "let m = module {p :: (@E@) = 41} => { let q = mod.p; };\nlet r = m{}.q;"),
+    ("constraint-statement-arm", "constraint c = (@E@) | 0;\nlet r :: c = 41;"),
+    ("format-expression", "let r = int(\"@{@Q@}\" % 0);"),
+    ("format-expression-in-function", "let f = func () => \"@{@Q@}\" % 0;\nlet r = int(f());"),
+    ("format-expression-in-module", "let m = module {} => { let q = \"@{@Q@}\" % 0; };\nlet r = int(m{}.q);"),
+    ("range-start", "let r = ((@E@):41).0;"),
+    ("range-step", "let r = (0:(@E@):41).1;"),
+    ("in-operand", "let r = select (41 in [@E@], 0) => {true = 41};"),
+    ("is-operand", "let r = select (@E@ is \"int\", 0) => {true = 41};"),
+    ("convert-operand", "let r = int(convert flags {a = @E@} == \"-a 41 \") + 40;" if False else "let r = select (convert flags {a = @E@}, 0) => {\"-a 41 \" = 41};"),
+    ("tuple-field-of-copy-in-function", "let t = {a = 1};\nlet f = func () => t{b = @E@};\nlet r = f().b;"),
+    ("out-expression", None),
 ]
 SPELLINGS = ["d/lib.ucg", "./d/lib.ucg", "../p/d/lib.ucg", "./d/../d/lib.ucg", ".//d/lib.ucg"]
 
@@ -208,7 +224,10 @@ def work_positions(chunk):
             with open(os.path.join(p, "d", "vlib.json"), "w") as f:
                 f.write('{"v": 41}\n')
             with open(os.path.join(p, "main.ucg"), "w") as f:
-                f.write(tpl.replace("@E@", e).replace("@I@", bare) + "\nout json {r = r};\n")
+                if tpl is None:
+                    f.write("out json {r = %s};\n" % e)          # the import sits in the out statement itself
+                else:
+                    f.write(tpl.replace("@E@", e).replace("@Q@", e.replace('"', '\\"')).replace("@I@", bare) + "\nout json {r = r};\n")
             results = {}
             for cwd_name, cwd in (("project", p), ("subdir", os.path.join(p, "d")), ("root", "/")):
                 rc, err, val = build(d, "p/main.ucg", cwd)
